@@ -273,12 +273,57 @@ def dump(dev, depth: int, lines: List[str]) -> None:
         dump(emb, depth + 1, lines)
 
 
+def item_ids(d: Dict[str, Any], path: str = "d") -> List[str]:
+    """ids of the removable parts of a description (used as recipe["ops"] for delta debugging)"""
+    out: List[str] = []
+    for i, _ in enumerate(d["icons"]):
+        out.append(f"{path}/i{i}")
+    for i, s in enumerate(d["services"]):
+        out.append(f"{path}/s{i}")
+        if s["doc"]["kind"] == "scpd":
+            for j, _ in enumerate(s["doc"]["vars"] or []):
+                out.append(f"{path}/s{i}/v{j}")
+            for j, a in enumerate(s["doc"]["actions"] or []):
+                out.append(f"{path}/s{i}/a{j}")
+                for k, _ in enumerate(a["args"]):
+                    out.append(f"{path}/s{i}/a{j}/g{k}")
+    for i, e in enumerate(d["embedded"]):
+        out.append(f"{path}/e{i}")
+        out += item_ids(e, f"{path}/e{i}")
+    return out
+
+
+def prune(d: Dict[str, Any], keep: set, path: str = "d") -> Dict[str, Any]:
+    """the description restricted to the parts whose id is in `keep` (a part goes with its container)"""
+    out = {"info": d["info"], "icons": [ic for i, ic in enumerate(d["icons"]) if f"{path}/i{i}" in keep], "services": [],
+           "embedded": []}
+    for i, s in enumerate(d["services"]):
+        sp = f"{path}/s{i}"
+        if sp not in keep:
+            continue
+        doc = s["doc"]
+        if doc["kind"] == "scpd":
+            vs = None if doc["vars"] is None else [v for j, v in enumerate(doc["vars"]) if f"{sp}/v{j}" in keep]
+            acts = None if doc["actions"] is None else [
+                {"name": a["name"], "args": [g for k, g in enumerate(a["args"]) if f"{sp}/a{j}/g{k}" in keep]}
+                for j, a in enumerate(doc["actions"]) if f"{sp}/a{j}" in keep]
+            doc = {"kind": "scpd", "vars": vs, "actions": acts}
+        out["services"].append({**s, "doc": doc})
+    for i, e in enumerate(d["embedded"]):
+        if f"{path}/e{i}" in keep:
+            out["embedded"].append(prune(e, keep, f"{path}/e{i}"))
+    return out
+
+
 def run_recipe(ctx: Ctx, recipe: Dict[str, Any], cid: str) -> Case:
     from async_upnp_client.client_factory import UpnpFactory
 
     base = recipe["base"]
     strict = bool(recipe["strict"])
     d = recipe["dev"]
+    if "ops" not in recipe:
+        recipe = {**recipe, "ops": item_ids(d)}
+    d = prune(d, set(recipe["ops"]))
     st = Style(None, int(recipe.get("style", 0)))
     tags = {"strict" if strict else "nonstrict", "prefix" if st.prefix else "defaultns"}
     lines = [f"cfg base={tok_str(base)} strict={1 if strict else 0}"]
@@ -578,3 +623,8 @@ def generate(ctx: Ctx) -> List[Case]:
 
 def signature(case: Case, verdict) -> str:
     return f"C05 {verdict.notes[:300]}"
+
+
+def extra_evidence(ctx: Ctx, cases: List[Case], verdicts) -> Dict[str, Any]:
+    wf = sum(1 for c in cases if verdicts[c.cid].notes.startswith("[wf]"))
+    return {"well_formed_cases_judged_against_mirror": wf, "not_well_formed_cases_compared_with_model_only": len(cases) - wf}
